@@ -118,6 +118,15 @@ def main(argv):
         top.elaborate()
         text, fn, topmod = cosim.translate(top, be)
         res[be] = {"text": text, "top_module": topmod}
+        # "any number of times": the same elaborated design translated once more in this process
+        try:
+          text2, fn2, topmod2 = cosim.translate(top, be)
+          if text2 != text or topmod2 != topmod:
+            import difflib
+            res[be]["again_differs"] = [l for l in difflib.unified_diff(text.splitlines(), text2.splitlines(), lineterm="", n=0)][:12]
+          else: res[be]["again_same"] = True
+        except Exception as e:
+          res[be]["again_raised"] = f"{type(e).__name__}: {str(e)[:200]}"
         try: os.remove(fn)
         except OSError: pass
       except Exception as e:
